@@ -115,6 +115,7 @@ def make_engine():
 def gen_history(rng, nupd, allow_bad=True, only_kinds=None):
     colonies = {'A': {}, 'B': {}}       # key -> kind (None: plain _add child)
     counter = [0]
+    touched = set()
     hist = []
 
     def fresh():
@@ -125,6 +126,9 @@ def gen_history(rng, nupd, allow_bad=True, only_kinds=None):
         other = 'B' if col == 'A' else 'A'
         kind = rng.choice(kinds)
         kids = list(colonies[col].keys())
+        if not allow_bad:
+            # well-formed stream: an update never refers to something it creates or removes itself
+            kids = [k for k in kids if k in before and k not in touched]
         if kind == 'generate' or (not kids and kind in ('delete', 'divide', 'move')):
             k = fresh()
             ck = rng.randint(0, 3)
@@ -139,6 +143,7 @@ def gen_history(rng, nupd, allow_bad=True, only_kinds=None):
             colonies[col][k] = None
             return ['add', k, {'s': {'n': rng.randint(0, 9)}} if rng.random() < 0.8 else {}]
         k = rng.choice(kids)
+        touched.add(k)
         if kind == 'delete':
             if allow_bad and rng.random() < 0.12:
                 return ['delete_path', [k]]
@@ -172,6 +177,7 @@ def gen_history(rng, nupd, allow_bad=True, only_kinds=None):
         col = rng.choice(['A', 'B'])
         nops = 1 if rng.random() < 0.75 else rng.randint(2, 3)
         ops, used = [], set()
+        touched.clear()
         before = set(colonies[col].keys())
         for _ in range(nops):
             op = one_op(col, kinds if i >= 2 else ['generate'], before)
